@@ -340,9 +340,17 @@ def run(cx):
             for b in sorted(loop, key=lambda x: len(nw.dominators().get(x, ()))):
                 t = nw.blocks[b]['term']
                 if t['k'] == 'call' and t['fn']['k'] == 'def' and t['fn']['local']:
-                    seq.append((last(t['fn']['name']), [I.shorten_vars(cn.c(a))[:60] for a in G.call_args(nw, P, b)][1:]))
+                    seq.append((last(t['fn']['name']), [I.shorten_vars(cn.c(a)) for a in G.call_args(nw, P, b)][1:]))
         import re as _re
-        seq = [(n_, [_re.sub(r'ZUC::ZUC\{[^{}]*(\{[^{}]*\}[^{}]*)*\}', 'ZUC', a_) for a_ in as_]) for n_, as_ in seq]
+        def _obj(t_):
+            # ZUC::ZUC{ .. } (balanced) -> ZUC
+            while 'ZUC::ZUC{' in t_:
+                k_ = t_.index('ZUC::ZUC{'); j_ = k_ + len('ZUC::ZUC{'); d_ = 1
+                while j_ < len(t_) and d_:
+                    d_ += t_[j_] == '{'; d_ -= t_[j_] == '}'; j_ += 1
+                t_ = t_[:k_] + 'ZUC' + t_[j_:]
+            return t_
+        seq = [(n_, [_obj(a_)[:60] for a_ in as_]) for n_, as_ in seq]
         want = [('bit_reconstruction', []), ('f', []), ('lfsr_with_initialization_mode', ['Shr(f(ZUC), 1)'])]
         cx.add('I-ZUC', 'new/init-rounds', seq == want, '32 initialisation rounds of BR; W = F(); LFSRWithInitialisationMode(W >> 1): %s' % seq, nw.loc())
         after = []
